@@ -312,7 +312,7 @@ class Program(object):
             self._ig = {}
         if name in self._ig:
             return self._ig[name]
-        res = ([], [])
+        res = ([], [], '')
         m = re.search(r'<impl at ([^:>]+):(\d+):(\d+): (\d+):(\d+)>', name)
         if m:
             for root in ([self.fn_root[name]] if name in getattr(self, 'fn_root', {}) else self.src_roots):
@@ -328,7 +328,7 @@ class Program(object):
                                 params.append(re.match(r'\w+', part).group(0))
                         rest = re.split(r'\bwhere\b', hdr[j + 1:])[0].strip()
                         selfty = rest.split(' for ')[-1].strip()
-                        res = (params, _type_args_of(selfty) or [])
+                        res = (params, _type_args_of(selfty) or [], selfty)
                     break
         self._ig[name] = res
         return res
@@ -1186,13 +1186,18 @@ class Machine(object):
             ga = self.generic_args(key)
             if names and len(names) == len(ga):
                 gmap.update(zip(names, ga))
+        params, pattern, selfty = self.p.impl_generics(name)
         if key.type_args:
-            params, pattern = self.p.impl_generics(name)
             targs = [self.subst_generics(a) for a in key.type_args]
             if params and len(pattern) == len(targs):
                 for pat, arg in zip(pattern, targs):
                     if pat in params:
                         gmap[pat] = arg
+        if selfty in params and args:
+            # blanket impl (`impl<T: ..> Trait for T`): T is the receiver's own type
+            rt = self.runtime_type(args[0])
+            if rt:
+                gmap[selfty] = rt
         return self.call_fn(name, args, gmap or None)
 
     def deref_all(self, v):
